@@ -365,18 +365,23 @@ def bit_methods(ck, rule):
         n_ok = 0
         raised = False
         for pf in pfs:
-            isf = [g for g in pf.guards if g[2] is not None and isinstance(g[2], ast.Call) and dotted(g[2].func) == "isinstance" and xp and dotted(g[2].args[0]) == xp]
-            fxp_branch = bool(isf and isf[-1][1])
-            wl = [g for g in pf.guards if g[2] is not None and isinstance(g[2], ast.Compare) and {dotted(g[2].left), dotted(g[2].comparators[0])} == {"self.n_word", "%s.n_word" % xp}]
+            # what the path's guards imply (substituted tests, conjunctions decomposed, unit propagation): named sub-conditions and
+            # merged / split tests give the same literals
+            from ..common import path_literals, isinstance_state
+            fxp_branch = bool(xp and isinstance_state(pf.guards, xp))
+            same_wl = None
+            for t, pol in path_literals(pf.guards):
+                if isinstance(t, ast.Compare) and len(t.ops) == 1 and isinstance(t.ops[0], (ast.Eq, ast.NotEq)) \
+                        and {dotted(t.left), dotted(t.comparators[0])} == {"self.n_word", "%s.n_word" % xp}:
+                    same_wl = pol if isinstance(t.ops[0], ast.Eq) else (not pol)
             if pf.end == "raise":
-                if wl and ((isinstance(wl[-1][2].ops[0], ast.NotEq) and wl[-1][1]) or (isinstance(wl[-1][2].ops[0], ast.Eq) and not wl[-1][1])):
+                if same_wl is False:
                     raised = True
                 continue
             if fxp_branch:
-                okwl = wl and ((isinstance(wl[-1][2].ops[0], ast.NotEq) and not wl[-1][1]) or (isinstance(wl[-1][2].ops[0], ast.Eq) and wl[-1][1]))
-                # the check must be the first thing decided on the Fxp branch (no path around it)
-                if not okwl:
-                    ck.bad(rule, m, "operands of different word lengths are rejected before anything is combined", "Fxp operand path without the n_word equality check: guards %s" % [(src(g[2])[:40], g[1]) for g in pf.guards if g[2] is not None], m.node,
+                # the check must be decided on every Fxp path (no path around it)
+                if same_wl is not True:
+                    ck.bad(rule, m, "operands of different word lengths are rejected before anything is combined", "Fxp operand path without the n_word equality check: guards %s" % [(src(g[0])[:40], g[1]) for g in pf.guards], m.node,
                            "two words of different length are silently combined")
                     continue
             if pf.ret is None:
